@@ -69,6 +69,8 @@ def run(chk, facts, tier):
                 if is_name(tgt, var) and val is not None:
                     if any(x.k == 'BinaryOperator' and x.o == '%' for x in val.walk()):
                         ok, why = False, 'modulo reduction of a power-of-two range is biased'
+                    if mentions(val, var):
+                        ok, why = False, 'a rejected candidate is only partly redrawn (the new candidate depends on the old one): accepted values are not uniformly distributed'
                     if not any(x.d.get('call') and 'random' in (x.cn or '') for x in val.walk()):
                         ok, why = False, 'candidate is not drawn from the random number generator'
         chk.instance('passkey-range', fn, 'create_passkey value %s' % var, ok, '' if ok else why, key='create_passkey')
